@@ -111,6 +111,11 @@ KERNELS.append(dict(name="K_fan_sum", file=F, cxx_name="FanProjData::sum(const i
                            (r"(?<![\w.>])get_min_b\(a\)", "FAN_MIN_B(self, a)", 1), (r"(?<![\w.>])get_max_b\(a\)", "FAN_MAX_B(self, a)", 1),
                            (r"(?<![\w.>])num_detectors_per_ring\b", "self->num_detectors_per_ring", 1),
                            (r"sum \+= \(\*this\)\(([^;]*)\);", r"SUM_ACCUM(\1);", 1)]))
+KERNELS.append(dict(name="K_make_fan_sum_data", file=F, cxx_name="make_fan_sum_data(Array<2,float>&, const FanProjData&)",
+                    func=r"make_fan_sum_data\(Array<2, float>& data_fan_sums, const FanProjData& fan_data\)", c_header="void K_make_fan_sum_data(const struct FAN* self)", loops=2,
+                    rules=[(r"fan_data\.get_min_ra\(\)", "0", 1), (r"fan_data\.get_max_ra\(\)", "(self->num_rings - 1)", 1), (r"fan_data\.get_min_a\(\)", "0", 1),
+                           (r"fan_data\.get_max_a\(\)", "(self->num_detectors_per_ring - 1)", 1),
+                           (r"data_fan_sums\[(\w+)\]\[(\w+)\] = fan_data\.sum\((\w+), (\w+)\);", r"FANSUM_SET(\1, \2, \3, \4);", 1)]))
 # FanProjData range accessors (get_min/max_rb, get_min/max_b, get_min/max_a, get_min/max_ra): what the library's loops iterate over
 def ACC(name, sig, header):
     return dict(name=name, file=F, cxx_name="FanProjData::" + sig, func=r"FanProjData::" + re.escape(sig).replace("\\ ", " ") + r" const", c_header=header, loops=0, contract_alias=name,
@@ -213,6 +218,7 @@ def jobs(tier, gen_dir):
           defs={"C20_CT": ct, "C20_CA": ca}, params={"transaxial crystals/block": ct, "axial crystals/block": ca})
     out.append(Job("c20/canary/K_make_block_data", HARNESS, "h_K_make_block_data", enforce="K_make_block_data", replace=RD, kernels=["K_make_block_data"], kind="canary", loop_contracts=True,
                    defines={"CANARY_K_make_block_data": None, "C20_CT": 8, "C20_CA": 8}, expect_fail=r"K_make_block_data\.postcondition", no_base_flags=True, timeout=300, backend="kissat", object_bits=12))
+    J("K_make_fan_sum_data", "h_K_make_fan_sum_data", enforce="K_make_fan_sum_data", kernels=["K_make_fan_sum_data"], loop_contracts=True, object_bits=12, timeout=600)
     J("K_fan_sum", "h_K_fan_sum", enforce="K_fan_sum", repl=RD, kernels=["K_fan_sum"], loop_contracts=True, object_bits=12, timeout=600)
     for k in ("K_fan_get_max_rb", "K_fan_get_min_rb_acc", "K_fan_get_min_b", "K_fan_get_max_b", "K_fan_get_max_a", "K_fan_get_max_ra"):
         J(k, "h_" + k, enforce=k, kernels=[k], min_obligations=2)
